@@ -16,6 +16,7 @@ class Case:
     branch_part: str # branch part
     case_id: str     # case ID
     case_type: str   # one of the types: case/else/end
+    indent: int = 0  # indent of the case keyword
 
 @dataclass
 class Branch:
@@ -79,6 +80,14 @@ class BranchingList:
         self.num_cases += 1
         return self.num_cases
     
+    def close_ended(self, node):
+        """ Close branches that ended because a line is indented no deeper than their case keyword
+
+        :param node: Node on the current line
+        """
+        while self.state and node.indent <= self.cases[self._get_case_id()].indent:
+            self._close_branch()
+        
     def false_case(self):
         """ Checks if case value is false
         """
@@ -135,6 +144,7 @@ class BranchingList:
                 branch_part = branch_part,       # part on the branch
                 case_id     = case_id,           # case ID
                 case_type   = node.case_type,    # case type CASE/ELSE/END
+                indent      = node.indent,       # indent of the keyword
             )
         else:
             raise Exception(f"Invalid condition:", node.code)
